@@ -168,6 +168,38 @@ def first_optional(n, rules, seen=frozenset()):
     return nullable(n, rules)
 
 
+def starts_with_regex(n, rules, seen=frozenset()):
+    k = n["k"]
+    if k == "re":
+        return True
+    if k == "alt":
+        return any(starts_with_regex(x, rules, seen) for x in n["xs"])
+    if k == "cat":
+        for x in n["xs"]:
+            if starts_with_regex(x, rules, seen):
+                return True
+            if not nullable(x, rules):
+                return False
+        return False
+    if k == "rep":
+        return starts_with_regex(n["xs"][0], rules, seen)
+    if k == "nt":
+        if n["s"] in seen:
+            return False
+        return starts_with_regex(rules[n["s"]], rules, seen | {n["s"]})
+    return False
+
+
+def regex_first_under_open_rep(g):
+    """An open-ended repetition whose body can begin with a regex terminal: prefix-mode forests of such grammars do
+    not end (recorded finding F29), so whole prefix-mode forests are only requested for grammars without it."""
+    def walk(n):
+        if n["k"] == "rep" and n["hi"] == INF and not n["ref"] and starts_with_regex(n["xs"][0], g["rules"]):
+            return True
+        return any(walk(x) for x in n["xs"])
+    return any(walk(n) for n in g["rules"].values())
+
+
 def in_family(n, rules):
     """No body that can derive the empty word under an open-ended repetition; no optional first element under * / +."""
     k = n["k"]
